@@ -509,6 +509,9 @@ Definition jres' {A} (f : A -> list jv) (r : res A) : jv :=
 Definition j_strs (l : list bytes) : jv := JL (map JB l).
 Definition j_ints (l : list Z) : jv := JL (map JI l).
 
+(* durations travel as ( high low ) 32-bit halves: the driver prints 63-bit OCaml integers *)
+Definition j_dur (d : Z) : jv := JL [JI (d / 2 ^ 32); JI (d mod 2 ^ 32)].
+
 Definition j_lval (v : lval) : jv :=
   match v with
   | VB b => jbool b | VZ z => JI z | VS s => JB s | VL l => j_strs l | VZs l => j_ints l
@@ -522,7 +525,11 @@ Definition ld_get_list (k : bytes) (l : ld) : list bytes :=
 (* fields in the order of [ld_init], then the three id lists *)
 Definition j_ld (l : ld) : jv :=
   let w := ld_get_bool S_allow_weak_crypto l in
-  JL (map (fun '(k, _) => match lookup k l with Some v => j_lval v | None => jbad end)
+  JL (map (fun '(k, _) => match lookup k l, lookup k ld_keys with
+                          | Some (VZ d), Some KDur => j_dur d
+                          | Some v, _ => j_lval v
+                          | None, _ => jbad
+                          end)
           (ld_init [] [])
       ++ [ j_ints (parse_etypes (ld_get_list S_default_tgs_enctypes l) w);
            j_ints (parse_etypes (ld_get_list S_default_tkt_enctypes l) w);
@@ -580,7 +587,7 @@ Definition c16_bool_j (j : jv) : jv :=
 
 Definition c16_dur_j (j : jv) : jv :=
   match j with
-  | JB s => if is_ascii s then jres' (fun d => [JI d]) (parse_duration s) else junmodelled
+  | JB s => if is_ascii s then jres' (fun d => [j_dur d]) (parse_duration s) else junmodelled
   | _ => jbad
   end.
 
